@@ -100,6 +100,9 @@ kinds, any number of multi-valued operands) on any element never faults -/
 theorem total_fixed (d : Dev) (h : d.uncmp = false) (rx : RxEngine) (prog : List Item) (hne : prog ≠ [])
     (elem root : Val) : ∃ b, matchElem d rx prog elem root = .ok b := by
   unfold matchElem
+  split
+  · split <;> exact ⟨_, rfl⟩
+  unfold matchGeneral
   have : resolve elem root false prog ≠ [] := by
     intro h0
     have := resolve_length elem root prog false
@@ -380,11 +383,31 @@ theorem compile_true (t : Tm) : compile true t = flatten (Spec.normalise t) := b
 theorem wf_normalise (t : Tm) (h : t.wf = true) : (Spec.normalise t).wf = true := by
   cases t <;> simp_all [Spec.normalise, Tm.wf, Op.cnt]
 
+/-- a template that is not a single path takes the general path of the loop -/
+theorem matchElem_general (d : Dev) (rx : RxEngine) (prog : List Item) (elem root : Val)
+    (h : ∀ p, prog ≠ [.path p]) : matchElem d rx prog elem root = matchGeneral d rx prog elem root := by
+  unfold matchElem
+  split
+  · exact absurd rfl (h _)
+  · rfl
+
+theorem flatten_not_bare (t : Tm) (h : isPath t = false) : ∀ p, flatten t ≠ [.path p] := by
+  intro p
+  cases t with
+  | const v => simp [flatten]
+  | path q => simp [isPath] at h
+  | app1 o a => simp only [flatten]; split <;> simp
+  | app2 o a b => simp only [flatten]; split <;> simp
+
+theorem isPath_normalise (t : Tm) : isPath (Spec.normalise t) = false := by
+  cases t <;> rfl
+
 /-- with the three repairs: for every well-formed script tree, every element and root, Script.Match
 (the route that turns a bare path into an existence test) gives exactly the specified verdict -/
 theorem script_spec (rx : RxEngine) (t : Tm) (hwf : t.wf = true) (elem root : Val) :
     matchElem Dev.fixed rx (compile true t) elem root = .ok (Spec.matches rx t elem root) := by
-  rw [compile_true, matchElem_flatten rx _ (wf_normalise t hwf) elem root]
+  rw [compile_true, matchElem_general _ _ _ _ _ (flatten_not_bare _ (isPath_normalise t)),
+    matchElem_flatten rx _ (wf_normalise t hwf) elem root]
   rfl
 
 def script_spec_full : Prop :=
@@ -407,7 +430,8 @@ theorem script_spec_full_false : ¬ script_spec_full := by
 theorem script_spec_partial (rx : RxEngine) (t : Tm) (hwf : t.wf = true) (elem root : Val)
     (hclean : ∀ c ∈ Spec.choices elem root (Spec.normalise t), Clean Dev.pinned rx c = true) :
     matchElem Dev.pinned rx (compile true t) elem root = .ok (Spec.matches rx t elem root) := by
-  rw [compile_true, matchElem_flatten_clean Dev.pinned rx _ (wf_normalise t hwf) elem root hclean]
+  rw [compile_true, matchElem_general _ _ _ _ _ (flatten_not_bare _ (isPath_normalise t)),
+    matchElem_flatten_clean Dev.pinned rx _ (wf_normalise t hwf) elem root hclean]
   rfl
 
 /-- a non-trivial instance: `@.a < 2.5 && @.m[*] == "x"` on `{"a": 1, "m": ["y", "x"]}` -/
@@ -418,25 +442,79 @@ example : ∀ c ∈ Spec.choices (.obj [([97], .int 1), ([109], .arr [.str [121]
 
 /-! ## 10. Script.Match against the filter fragment -/
 
-/-- `Equation.Filter()` (and `Script()` of a `jp.Get(x)` equation) lay out the same program as
-`Script()` of the parsed text unless the script is a bare path … -/
+/-- `Equation.Filter()` lays out the same program as `Script()` unless the script is a bare path -/
 theorem match_filter (t : Tm) (h : isPath t = false) : compile false t = compile true t := by
   cases t <;> simp_all [compile, isPath]
 
-def match_filter_full : Prop :=
-  ∀ (rx : RxEngine) (t : Tm) (elem : Val), matchElem Dev.fixed rx (compile false t) elem elem = matchElem Dev.fixed rx (compile true t) elem elem
+/-- before 6b93c2a every template took the general path of the loop (`matchGeneral`), also the one-cell
+template `Filter()` lays out for a bare path -/
+def match_filter_before_6b93c2a : Prop :=
+  ∀ (rx : RxEngine) (t : Tm) (elem : Val),
+    matchGeneral Dev.fixed rx (compile false t) elem elem = matchGeneral Dev.fixed rx (compile true t) elem elem
 
-/-- … and for the bare path `@.a` on `{"a": 1}` Match says true (existence) while the filter route wants
-the value to be `true` -/
-theorem match_filter_full_false : ¬ match_filter_full := by
+/-- before 6b93c2a: for the bare path `@.a` on `{"a": 1}` Match said true (existence) while the filter
+route wanted the value to be `true` (former known finding C12-bare-path) -/
+theorem match_filter_before_6b93c2a_false : ¬ match_filter_before_6b93c2a := by
   intro h
   have := h rx0 (.path ⟨false, [.child [97]]⟩) (.obj [([97], .int 1)])
-  have e1 : matchElem Dev.fixed rx0 (compile false (.path ⟨false, [.child [97]]⟩)) (.obj [([97], .int 1)]) (.obj [([97], .int 1)])
+  have e1 : matchGeneral Dev.fixed rx0 (compile false (.path ⟨false, [.child [97]]⟩)) (.obj [([97], .int 1)]) (.obj [([97], .int 1)])
       = .ok false := rfl
-  have e2 : matchElem Dev.fixed rx0 (compile true (.path ⟨false, [.child [97]]⟩)) (.obj [([97], .int 1)]) (.obj [([97], .int 1)])
+  have e2 : matchGeneral Dev.fixed rx0 (compile true (.path ⟨false, [.child [97]]⟩)) (.obj [([97], .int 1)]) (.obj [([97], .int 1)])
       = .ok true := rfl
   rw [e1, e2] at this
   cases this
+
+/-- the regenerated source has the `bare` branch that `matchElem` transcribes (false before 6b93c2a) -/
+theorem bare_test_ok : Gen.Script.bareExistence = true := by decide
+
+/-- the selected nodes do not hold the `Nothing` marker itself (true of all JSON-like data; a Go caller
+could put `jp.Nothing` into the data) -/
+def NoNothing (vs : List Val) : Prop := ∀ v ∈ vs, (match v with | .nothing => false | _ => true) = true
+
+/-- since 6b93c2a: the one-cell template of a bare path is the specified existence test, for every code
+variant -/
+theorem bare_path_spec (d : Dev) (rx : RxEngine) (p : Path) (elem root : Val) (h : NoNothing (Spec.sel p elem root)) :
+    matchElem d rx (compile false (.path p)) elem root = .ok (Spec.matches rx (.path p) elem root) := by
+  have key : ∀ l : List Val,
+      (List.flatMap (fun a => [Tm.app2 Op.exists (.const a) (.const (.bool true))]) l).any
+          (fun t' => Spec.isTrue (Spec.eval rx t')) =
+        l.any fun c => (match c with | .nothing => false | _ => true) := by
+    intro l
+    induction l with
+    | nil => rfl
+    | cons c l ih =>
+      simp only [List.flatMap_cons, List.singleton_append, List.any_cons, ih]
+      congr 1
+      cases c <;> rfl
+  have hm : Spec.matches rx (.path p) elem root =
+      (Spec.candidates p elem root).any fun c => (match c with | .nothing => false | _ => true) := by
+    simp only [Spec.matches, Spec.normalise, Spec.choices, List.flatMap_map, List.map_cons, List.map_nil]
+    exact key _
+  rw [hm]
+  simp only [compile, Bool.false_eq_true, ↓reduceIte, matchElem, resolveItem, Spec.candidates]
+  unfold NoNothing at h
+  cases hn : Spec.Path.normal p
+  · cases hs : Spec.sel p elem root with
+    | nil => simp
+    | cons v r =>
+      rw [hs] at h
+      have hv := h v (by simp)
+      cases r with
+      | nil => cases v <;> simp_all
+      | cons w r' => cases v <;> simp_all
+  · cases hs : Spec.sel p elem root with
+    | nil => simp
+    | cons v r =>
+      rw [hs] at h
+      have hv := h v (by simp)
+      cases v <;> simp_all
+
+example : NoNothing (Spec.sel ⟨false, [.child [97], .wild]⟩ (.obj [([97], .arr [.int 1, .null])]) .null) := by
+  intro v hv
+  have : Spec.sel ⟨false, [.child [97], .wild]⟩ (.obj [([97], .arr [.int 1, .null])]) .null = [.int 1, .null] := rfl
+  rw [this] at hv
+  simp at hv
+  rcases hv with rfl | rfl <;> rfl
 
 /-- hence, with the operator repairs, the filter route also gives the specified verdict on everything
 but bare paths -/
@@ -447,7 +525,7 @@ theorem filter_spec (rx : RxEngine) (t : Tm) (hwf : t.wf = true) (h : isPath t =
 
 example : isPath (.app2 .eq (.path ⟨false, []⟩) (.const (.int 1))) = false := rfl
 
-/-! ## 11. The code as it is now (`Dev.current`: after 0a3fd2c, 21415f8, fe63c88, cd355fe) -/
+/-! ## 11. The code as it is now (`Dev.current`: after 0a3fd2c, 21415f8, fe63c88, cd355fe, 6b93c2a) -/
 
 /-- evaluation of any non-empty program on any element never faults -/
 theorem total_current (rx : RxEngine) (prog : List Item) (hne : prog ≠ []) (elem root : Val) :
@@ -510,7 +588,8 @@ a float -/
 theorem script_spec_current (rx : RxEngine) (t : Tm) (hwf : t.wf = true) (elem root : Val)
     (hclean : ∀ c ∈ Spec.choices elem root (Spec.normalise t), Clean Dev.current rx c = true) :
     matchElem Dev.current rx (compile true t) elem root = .ok (Spec.matches rx t elem root) := by
-  rw [compile_true, matchElem_flatten_clean Dev.current rx _ (wf_normalise t hwf) elem root hclean]
+  rw [compile_true, matchElem_general _ _ _ _ _ (flatten_not_bare _ (isPath_normalise t)),
+    matchElem_flatten_clean Dev.current rx _ (wf_normalise t hwf) elem root hclean]
   rfl
 
 /-- a non-trivial instance that the pinned code got wrong: `@.f != 2.5 && @.m[*] == @.m[*]` on
@@ -520,12 +599,38 @@ example : ∀ c ∈ Spec.choices (.obj [([102], .flt (.fin 3 (-1))), ([109], .ar
       (.app2 .eq (.path ⟨false, [.child [109], .wild]⟩) (.path ⟨false, [.child [109], .wild]⟩)))),
     Clean Dev.current rx0 c = true := by decide +kernel
 
-/-- the filter route (`Equation.Filter()`), same hypothesis, on everything but a bare path; for a bare
-path `match_filter_full_false` still holds of the code (known finding C12-bare-path) -/
-theorem filter_spec_current (rx : RxEngine) (t : Tm) (hwf : t.wf = true) (hb : isPath t = false) (elem root : Val)
+/-- the filter route (`Equation.Filter()` inside `Expr.Get`/`First`), same hypothesis, now for EVERY
+well-formed script: a bare path is the specified existence test too (`bare_path_spec`, 6b93c2a) -/
+theorem filter_spec_current (rx : RxEngine) (t : Tm) (hwf : t.wf = true) (elem root : Val)
+    (hdata : ∀ p, t = .path p → NoNothing (Spec.sel p elem root))
     (hclean : ∀ c ∈ Spec.choices elem root (Spec.normalise t), Clean Dev.current rx c = true) :
     matchElem Dev.current rx (compile false t) elem root = .ok (Spec.matches rx t elem root) := by
-  rw [match_filter t hb]
-  exact script_spec_current rx t hwf elem root hclean
+  cases hb : isPath t
+  · rw [match_filter t hb]
+    exact script_spec_current rx t hwf elem root hclean
+  · cases t with
+    | path p => exact bare_path_spec Dev.current rx p elem root (hdata p rfl)
+    | const v => simp [isPath] at hb
+    | app1 o a => simp [isPath] at hb
+    | app2 o a b => simp [isPath] at hb
+
+/-- the hypotheses of `script_spec_current` hold of every bare path: an `exists` application is in no
+deviation class -/
+theorem clean_bare (d : Dev) (rx : RxEngine) (p : Path) (elem root : Val) :
+    ∀ c ∈ Spec.choices elem root (Spec.normalise (.path p)), Clean d rx c = true := by
+  intro c hc
+  simp only [Spec.normalise, Spec.choices, List.flatMap_map, List.map_cons, List.map_nil,
+    List.mem_flatMap, List.mem_singleton] at hc
+  obtain ⟨v, _, rfl⟩ := hc
+  simp [Clean, Op.cnt, devHit, uncomparablePair, neqFloatCase, bigMixed, isCmp]
+
+/-- Script.Match(v) ⇔ v is selected by the corresponding filter, for every well-formed script: both routes
+give the same verdict on every element (same hypotheses; none of them concerns a bare path beyond
+`NoNothing`) -/
+theorem match_filter_current (rx : RxEngine) (t : Tm) (hwf : t.wf = true) (elem : Val)
+    (hdata : ∀ p, t = .path p → NoNothing (Spec.sel p elem elem))
+    (hclean : ∀ c ∈ Spec.choices elem elem (Spec.normalise t), Clean Dev.current rx c = true) :
+    matchElem Dev.current rx (compile true t) elem elem = matchElem Dev.current rx (compile false t) elem elem := by
+  rw [script_spec_current rx t hwf elem elem hclean, filter_spec_current rx t hwf elem elem hdata hclean]
 
 end OjgVerif.C12
